@@ -35,10 +35,11 @@ OUT_PREFIX = '/\\ out = "'
 
 # --------------------------------------------------------------------------- TLC case generation
 def gen_cases(ctx, label, cfg, workers=8, timeout=1500):
-    """run TreeDiffGen with cfg, return path of a file with one JSON case per line"""
+    """run TreeDiffGen / TreeDiffSeq with cfg, return path of a file with one JSON case per line"""
     d = ctx.tmpdir("gen")
     dump = os.path.join(d, "cases")
-    res = tlc.run("TreeDiffGen.tla", cfg, workers=workers, timeout=timeout, dump_states=dump)
+    spec = "TreeDiffSeq.tla" if cfg.startswith("TreeDiffSeq") else "TreeDiffGen.tla"
+    res = tlc.run(spec, cfg, workers=workers, timeout=timeout, dump_states=dump)
     ctx.add_tlc(label, res)
     n = 0
     cases = os.path.join(d, "cases.jsonl")
@@ -386,10 +387,25 @@ def change_list(rng, A, B):
     return cl
 
 
+def rnd_small(rng):
+    """a small listing over few names whose ids include the similar pair x / u"""
+    L = []
+    for _ in range(rng.choice((0, 1, 1, 2, 2, 3))):
+        p = [list(rng.choice((b"a", b"b", b"c", b"d")))]
+        if rng.random() < 0.25:
+            p.append(list(rng.choice((b"a", b"b"))))
+        add_entry(rng, L, path=p, cell=(rng.choice("FFFFXL"), rng.choice("xxuuy")))
+    return L
+
+
 def rnd_trace_cases(ctx, n):
     rng = ctx.rng
     cases = []
     for tid in range(1, n + 1):
+        if rng.random() < 0.12:      # one detector object, several diffs, a limit that small trees exceed
+            cases.append({"tid": tid, "kind": "renseq", "m": rng.choice((1, 1, 2)), "A": [], "B": [],
+                          "steps": [[rnd_small(rng), rnd_small(rng)] for _ in range(rng.choice((2, 3, 4)))]})
+            continue
         A = rnd_listing(rng, rng.choice((0, 1, 2, 3, 4, 5, 6, 8, 10)))
         B = mutate(rng, A) if rng.random() < 0.85 else rnd_listing(rng, rng.choice((0, 2, 4, 6)))
         r = rng.random()
@@ -463,7 +479,11 @@ def trace_validation(ctx, n, nshards, extra_traces):
     for o in outs:
         for t in o["traces"]:
             tid += 1
-            meta[tid] = (o["mode"], by_tid[t["tid"]])
+            c0 = by_tid[t["tid"]]
+            if c0["kind"] == "renseq":
+                A, B = c0["steps"][t["step"]]
+                c0 = {"kind": "rename", "A": A, "B": B, "tid": (c0["tid"], t["step"]), "seq": c0}
+            meta[tid] = (o["mode"], c0)
             traces.append(dict(t, tid=tid))
     for mode, x in extra_traces:            # ambiguous rename results from the enumerated pairs
         tid += 1
@@ -522,6 +542,10 @@ def trace_validation(ctx, n, nshards, extra_traces):
             if t["kind"] == "patch":
                 feat = ch.cl_shape(A, c["cl"])
             txt = f"A={ch.show_listing(A)} B={ch.show_listing(B)}" if t["kind"] != "build" else ch.show_listing(A)
+            if "seq" in c:
+                txt = (f"max_files={c['seq']['m']} one detector, diff {t['step'] + 1} of: "
+                       + " ; ".join(f"{ch.show_listing(a)}->{ch.show_listing(b)}" for a, b in c["seq"]["steps"][:t["step"] + 1]))
+                clause += f"[step{t['step'] + 1}]" if t["step"] else ""
             if c.get("paths"):
                 txt += f" paths={[ch.pbytes(p).decode('latin-1') for p in c['paths']]}"
             g = rejected.setdefault((site, clause, feat), {"modes": set(), "best": None, "count": 0})
@@ -529,7 +553,7 @@ def trace_validation(ctx, n, nshards, extra_traces):
             g["count"] += 1
             key = (len(A) + len(B), len(txt), txt)
             if g["best"] is None or key < g["best"][0]:
-                g["best"] = (key, txt, {"kind": "trace", "trace": t, "case": c, "verdict": verdict})
+                g["best"] = (key, txt, {"kind": "trace", "trace": t, "case": c.get("seq", c), "verdict": verdict})
         elif drift:
             ctx.drift_event(f"{SITE[t['kind']]}: result differs from the model in order/labels only ({json.dumps(c)[:300]})")
     ctx.validated(nreal)
@@ -599,16 +623,21 @@ def run(ctx):
     if ctx.quick:
         plan = [("build 8 paths x 8 cells <=3", "TreeDiffGen_build.cfg"),
                 ("diff 8 paths x 2 cells <=2", "TreeDiffGen_diff_q1.cfg"),
-                ("diff 3 paths x 5 cells <=2", "TreeDiffGen_diff_q2.cfg")]
+                ("diff 3 paths x 5 cells <=2", "TreeDiffGen_diff_q2.cfg"),
+                ("detector reused for 2 diffs, 3 paths x 3 cells <=2, max_files=1", "TreeDiffSeq_q.cfg")]
     else:
         plan = [("build 8 paths x 8 cells <=4", "TreeDiffGen_build_t.cfg"),
                 ("diff 8 paths x 4 cells <=2", "TreeDiffGen_diff_t1.cfg"),
                 ("diff 6 paths x 3 cells <=3", "TreeDiffGen_diff_t3.cfg"),
-                ("diff 3 paths x 8 cells <=2", "TreeDiffGen_diff_t4.cfg")]
+                ("diff 3 paths x 8 cells <=2", "TreeDiffGen_diff_t4.cfg"),
+                ("detector reused for 2 diffs, 4 paths x 3 cells <=2, max_files=1", "TreeDiffSeq_t.cfg")]
     total_cases = 0
     # TLC enumerates the next configuration while the current one is replayed
     from concurrent.futures import ThreadPoolExecutor
     pool = ThreadPoolExecutor(1)
+    # negative control of the detector model: with candidates surviving a skipped diff (Stale = TRUE)
+    # TLC must find a second diff whose result depends on the first
+    neg = ThreadPoolExecutor(1).submit(tlc.run, "TreeDiffSeq.tla", "TreeDiffSeq_neg.cfg", workers=2, timeout=600)
     futs = [pool.submit(gen_cases, ctx, plan[0][0], plan[0][1])]
     for k, (label, cfg) in enumerate(plan):
         cases, n = futs[k].result()
@@ -618,26 +647,35 @@ def run(ctx):
         with open(cases) as f:
             first = f.readline()
         ctx.sample({"kind": "tlc-case", "config": cfg, "case": json.loads(first) if len(first) < 4000 else first[:4000]})
-        o, gitfiles, treefiles = replay_cases(ctx, cases, label, nsh, max_traces=ctx.pick(150, 1500))
+        seq = cfg.startswith("TreeDiffSeq")
+        o, gitfiles, treefiles = replay_cases(ctx, cases, label, nsh, git=not seq, max_traces=0 if seq else ctx.pick(150, 1500))
         outs += o
         for x in o:
             extra += [(x["mode"], t) for t in x["traces"]]
         ctx.cov.setdefault("nontrivial_cases", 0)
         ctx.cov["nontrivial_cases"] += sum(x["nontrivial"] for x in o if x["mode"] == "py")
-        git_crosscheck(ctx, G, gitfiles, treefiles, label, stride=ctx.pick(4, 3))
+        if not seq:
+            git_crosscheck(ctx, G, gitfiles, treefiles, label, stride=ctx.pick(4, 3))
         os.remove(cases)
+    r = neg.result()
+    ctx.add_tlc("TreeDiffSeq_neg (negative control: stale candidates, expects Lemmas violated)", r, require_ok=False)
+    if "Lemmas" not in r.violated:
+        raise MachineryError(f"negative control TreeDiffSeq_neg did not find the stale-candidate dependence\n{r.output[-1500:]}")
     for k in range(ctx.cov.get("nontrivial_cases", 0)):
         ctx.nontrivial(k)
     rejected = trace_validation(ctx, ctx.pick(1200, 12000), nsh, extra)
     report(ctx, outs, rejected)
     ctx.cov["cases_enumerated_by_tlc"] = total_cases
     ctx.cov["rule"] = ("a case = one listing (build/flatten/lookup, 3 input orders) or one ordered pair of listings (tree_changes under 8 flag "
-                       "combinations + 4 path filters, commit_tree_changes in 2 orders, RenameDetector), each executed with and without the Rust "
+                       "combinations + 4 path filters, commit_tree_changes in 2 orders, RenameDetector) or one sequence of two diffs made with one "
+                       "RenameDetector object (one per distinct detector state x second pair), each executed with and without the Rust "
                        "extensions; non-trivial = listing with >= 2 entries or pair with A # B (counted once, not per implementation), plus every "
                        "randomly generated execution judged by TLC")
     ctx.assumptions += ["SHA-1 treated as injective (tree identity = canonical entry sequence); hashlib computes the real ids",
                         "C git 2.39.5 is used to validate the spec (mktree ids, raw diffs, literal pathspecs, -C100% exact renames), not dulwich directly",
-                        "rename detection: only exact (same id) renames/copies; pairing compared only where ids are not shared",
+                        "rename detection: exact (same id) renames/copies, plus one abstract similar pair of blobs (x, edited copy u) for the content "
+                        "path of a detector object reused for two diffs with max_files=1; pairing compared only where ids are not shared and at most "
+                        "one content candidate exists; similarity scores/thresholds themselves are not modelled",
                         "listings are valid (no path is a prefix of another); change lists name existing paths and mention each path once",
                         "in-memory object store (MemoryObjectStore); object ids of blobs/gitlinks are opaque"]
     return ctx.finish(exhaustive=True)
@@ -659,6 +697,7 @@ def replay(ctx, path):
                                         "obj = json.load(open(sys.argv[1]))\nR = ch.Real()\ncol = ch.Collector(sys.argv[2])\n"
                                         "if obj['kind'] == 'build':\n    ch.run_build_case(R, col, obj['case'], verbose=True)\n"
                                         "elif obj['kind'] == 'diff':\n    ch.run_diff_case(R, col, obj['case'], obj.get('filters', []), verbose=True)\n"
+                                        "elif obj['kind'] == 'seq':\n    ch.run_seq_case(R, col, obj['case'], verbose=True)\n"
                                         "else:\n    t = ch.run_trace_case(R, obj['case'])\n    print('  recorded:', json.dumps(t)[:3000])\n"
                                         "    json.dump(t, open(sys.argv[1] + '.trace', 'w'))\n"
                                         "for g in col.groups.values():\n    print('  FAIL', g['site'], g['clause'], g['features'], g['case'])\n"
@@ -668,10 +707,13 @@ def replay(ctx, path):
         if obj["kind"] == "trace" and os.path.exists(task + ".trace"):
             with open(task + ".trace") as f:
                 t = json.load(f)
-            v = judge(ctx, [dict(t, tid=1)], "replay", workers=1)[1]
-            print(f"  TLC verdict: {v[0]}{' (drift)' if v[1] else ''}")
-            if v[0] != "ok":
-                rc = 1
+            ts = t if isinstance(t, list) else [t]
+            vs = judge(ctx, [dict(x, tid=k + 1) for k, x in enumerate(ts)], "replay", workers=1)
+            for k in range(len(ts)):
+                v = vs[k + 1]
+                print(f"  TLC verdict{f' (diff {k + 1})' if len(ts) > 1 else ''}: {v[0]}{' (drift)' if v[1] else ''}")
+                if v[0] != "ok":
+                    rc = 1
         elif p.returncode == 1:
             rc = 1
         elif p.returncode != 0:
